@@ -73,6 +73,11 @@ type group struct {
 	// fixed global acquisition order of the struct mutexes (outermost first); function-local mutexes
 	// are appended behind them in order of appearance.
 	lockOrder []string
+	// derive: the guarded fields of every configured type are DERIVED from the source (see deriveFields):
+	// every field assigned outside constructors / Init becomes a shared variable; channel operations on a
+	// field of a configured type are named "Type.field"; `make(chan T, n)` inside a composite literal is a
+	// makeChan of "Type.field"; a deferred function literal that only accesses shared variables is kept.
+	derive bool
 }
 
 var groups = []group{
@@ -145,6 +150,42 @@ var groups = []group{
 		},
 		funcs:     []funcCfg{{pkg: "pkg/p2p", name: "rateLimiterHandler"}},
 		lockOrder: []string{"MessageProtocol.resMu", "rpcMessageCounter.mu", "connectionGater.mutex"}},
+
+	// C20, second file (Props/C20_Fields.lean, Props/C20_WaitFor.lean): the shared structures of the c20 group
+	// plus the consensus executer, the BFT module, the generator and the RPC endpoints that hand work to the
+	// consensus goroutine or read its data, with
+	//   * the shared variables DERIVED from the source (group field `derive`): every field of a configured
+	//     struct that is assigned (plain / op / index assignment, ++ / --, delete, address taken) in any function
+	//     of its package other than a constructor (plain function New* / new*) or a method named Init, guarded by
+	//     the struct's own mutex field if it has one and by nothing ("-") otherwise - a NEW memo field shows up
+	//     here by itself with all its reads and writes;
+	//   * every operation on the process queue and on the subscriber channels under a stable name
+	//     ("Executer.processCh"), a send in a `select` with `default` as trySend, the capacity from the
+	//     constructor (NewExecuter is extracted as a plain function), the emitter inlined (EventEmitter.Publish
+	//     = lock; loop [send]), calls through the generator's `Consensus` interface as
+	//     `blockingCall "Consensus.<method>"`.
+	{name: "c20x", file: "SkeletonsShared.lean", namespace: "LiskVerif.Gen.SkeletonsShared", about: "C20 (derived shared fields, queue / emitter wait-for)",
+		derive: true,
+		types: []typeCfg{
+			{pkg: "pkg/blockchain", name: "blockCache", file: "block_cache.go"},
+			{pkg: "pkg/blockchain", name: "DataAccess", file: "data_access.go"},
+			{pkg: "pkg/blockchain", name: "Chain", file: "chain.go"},
+			{pkg: "pkg/consensus/certificate", name: "Pool", file: "pool.go"},
+			{pkg: "pkg/event", name: "EventEmitter", file: "event.go"},
+			{pkg: "pkg/db/diffdb", name: "Database", file: "db.go",
+				helpers: []string{"ensureCache", "getKey", "mergeSortLimit"}},
+			{pkg: "pkg/consensus", name: "Executer"},
+			{pkg: "pkg/consensus/liskbft", name: "Module", file: "module.go"},
+			{pkg: "pkg/generator", name: "Generator", file: "generator.go"},
+			{pkg: "pkg/engine/endpoint", name: "chainEndpoint", file: "chain_endpoint.go"},
+			{pkg: "pkg/engine/endpoint", name: "systemEndpoint", file: "system_endpoint.go"},
+			{pkg: "pkg/engine/endpoint", name: "generatorEndpoint", file: "generator_endpoint.go"},
+		},
+		funcs: []funcCfg{{pkg: "pkg/consensus", name: "NewExecuter"}},
+		external: []extCfg{
+			{pkg: "pkg/generator", name: "Consensus", methods: []string{"*"}},
+		},
+		lockOrder: []string{"EventEmitter.rwMutex", "Pool.mutex", "Database.mutex", "blockCache.mutex"}},
 }
 
 // ---------------------------------------------------------------------------------------------
@@ -202,6 +243,15 @@ type gen struct {
 	localMus    []string
 	localGuards [][2]string // captured variable -> the local mutex locked around its first access
 	lits        []skeleton  // function literals called synchronously (sort.Slice comparators ...)
+	derive      bool        // group option `derive`
+	derivedInfo []derivedField
+}
+
+// derivedField records why a field became a shared variable (group option `derive`).
+type derivedField struct {
+	Var    string   `json:"var"`
+	Guard  string   `json:"guard"`
+	Writes []string `json:"writes"` // functions assigning it (outside constructors / Init)
 }
 
 func (g *gen) loadPkg(dir string) *pkgInfo {
@@ -407,6 +457,19 @@ func (c *fctx) text(e ast.Expr) string {
 	var sb strings.Builder
 	_ = printer.Fprint(&sb, c.g.fset, e)
 	return sb.String()
+}
+
+// chanName names the channel denoted by e. In a `derive` group a channel held in a field of a repository
+// struct is named "Type.field" whatever the receiver variable is called; otherwise the source text.
+func (c *fctx) chanName(e ast.Expr) string {
+	if c.g.derive {
+		if sel, ok := e.(*ast.SelectorExpr); ok {
+			if t := c.typeOf(sel.X); t.kind == "named" && t.name != "" {
+				return t.name + "." + sel.Sel.Name
+			}
+		}
+	}
+	return c.text(e)
 }
 
 // typeOf is a small syntactic type inference: enough to resolve receivers of method calls.
@@ -844,7 +907,7 @@ func (c *fctx) expr(e ast.Expr) []action {
 		return append(c.expr(x.X), c.expr(x.Y)...)
 	case *ast.UnaryExpr:
 		if x.Op == token.ARROW {
-			return append(c.expr(x.X), action{Op: "recv", Arg: c.text(x.X)})
+			return append(c.expr(x.X), action{Op: "recv", Arg: c.chanName(x.X)})
 		}
 		if x.Op == token.AND {
 			if f := c.guardedField(c.baseOf(x.X)); f != "" {
@@ -857,7 +920,23 @@ func (c *fctx) expr(e ast.Expr) []action {
 	case *ast.KeyValueExpr:
 		return append(c.expr(x.Key), c.expr(x.Value)...)
 	case *ast.CompositeLit:
-		return c.exprs(x.Elts)
+		out := c.exprs(x.Elts)
+		if c.g.derive && x.Type != nil {
+			// T{field: make(chan E, n)}: the channel of field `field` is created here
+			if t := c.g.typeFromExpr(c.dir, c.file, x.Type); t.kind == "named" && t.name != "" {
+				for _, el := range x.Elts {
+					if kv, ok := el.(*ast.KeyValueExpr); ok {
+						if key, ok := kv.Key.(*ast.Ident); ok {
+							for _, a := range c.makeChan(key, kv.Value) {
+								a.Arg = t.name + "." + key.Name
+								out = append(out, a)
+							}
+						}
+					}
+				}
+			}
+		}
+		return out
 	case *ast.ArrayType, *ast.MapType, *ast.ChanType, *ast.FuncType, *ast.InterfaceType, *ast.StructType:
 		return nil
 	case *ast.FuncLit:
@@ -1049,7 +1128,7 @@ func (c *fctx) makeChan(target ast.Expr, val ast.Expr) []action {
 		}
 		n = int(v)
 	}
-	return []action{{Op: "makeChan", Arg: c.text(target), N: n}}
+	return []action{{Op: "makeChan", Arg: c.chanName(target), N: n}}
 }
 
 func (c *fctx) stmt(s ast.Stmt) []action {
@@ -1095,7 +1174,7 @@ func (c *fctx) stmt(s ast.Stmt) []action {
 		return append(c.expr(x.X), c.lhs(x.X)...)
 	case *ast.SendStmt:
 		out := append(c.expr(x.Chan), c.expr(x.Value)...)
-		return append(out, action{Op: "send", Arg: c.text(x.Chan)})
+		return append(out, action{Op: "send", Arg: c.chanName(x.Chan)})
 	case *ast.ReturnStmt:
 		if len(x.Results) == 1 {
 			if fl, ok := x.Results[0].(*ast.FuncLit); ok {
@@ -1125,6 +1204,24 @@ func (c *fctx) stmt(s ast.Stmt) []action {
 			saved := c.unknowns
 			if acts := simplify(c.call(x.Call)); len(acts) == 0 {
 				return nil
+			}
+			c.unknowns = saved
+		} else if c.g.derive {
+			// derive groups: a deferred function literal that does nothing but access shared variables
+			// (`defer func() { c.syncying = false }()`) runs at function exit; it is kept as a body that
+			// starts with NO lock held (conservative for the lockset criterion: an access that relies on a
+			// lock of the enclosing function is reported as unguarded)
+			fl := x.Call.Fun.(*ast.FuncLit)
+			saved, savedLoops, savedHeld := c.unknowns, c.loops, c.heldNow
+			c.loops, c.heldNow = nil, nil
+			body := simplify(c.block(fl.Body.List))
+			c.loops, c.heldNow = savedLoops, savedHeld
+			if len(body) == 0 || onlyControl(body) {
+				c.unknowns = saved
+				return nil
+			}
+			if onlyAccesses(body) {
+				return []action{{Op: "go", Body: body}}
 			}
 			c.unknowns = saved
 		}
@@ -1173,7 +1270,7 @@ func (c *fctx) stmt(s ast.Stmt) []action {
 		t := c.typeOf(x.X)
 		if t.kind == "chan" || (!t.valid && x.Value == nil) {
 			// ranging over a channel (or a value of unknown type with a single variable) receives
-			body = append(body, action{Op: "recv", Arg: c.text(x.X)})
+			body = append(body, action{Op: "recv", Arg: c.chanName(x.X)})
 		}
 		if x.Tok == token.ASSIGN {
 			for _, l := range []ast.Expr{x.Key, x.Value} {
@@ -1256,6 +1353,24 @@ func onlyControl(as []action) bool {
 		case "choice":
 			for _, alt := range a.Alts {
 				if !onlyControl(alt) {
+					return false
+				}
+			}
+		default:
+			return false
+		}
+	}
+	return true
+}
+
+// onlyAccesses reports whether as consists of nothing but reads / writes of shared variables and control.
+func onlyAccesses(as []action) bool {
+	for _, a := range as {
+		switch a.Op {
+		case "ret", "read", "write", "del":
+		case "choice":
+			for _, alt := range a.Alts {
+				if !onlyAccesses(alt) {
 					return false
 				}
 			}
@@ -1472,7 +1587,7 @@ func runGroup(repoDir string, gr *group, leanFile, jsonFile string) {
 	repo, leanOut, jsonOut := &repoDir, &leanFile, &jsonFile
 	types, lockOrder := gr.types, gr.lockOrder
 	g := &gen{repo: *repo, fset: token.NewFileSet(), pkgs: map[string]*pkgInfo{}, cfg: map[string]*typeCfg{}, scope: map[string]bool{}, names: map[string]bool{}, funcPkg: map[string]string{},
-		ext: map[string]map[string]bool{}}
+		ext: map[string]map[string]bool{}, derive: gr.derive}
 	for i := range types {
 		t := &types[i]
 		if _, dup := g.cfg[t.name]; dup {
@@ -1480,6 +1595,9 @@ func runGroup(repoDir string, gr *group, leanFile, jsonFile string) {
 			os.Exit(1)
 		}
 		g.cfg[t.name] = t
+	}
+	if gr.derive {
+		g.deriveFields(types)
 	}
 	// scope: every selected method of every configured type
 	type item struct {
@@ -1644,6 +1762,10 @@ func runGroup(repoDir string, gr *group, leanFile, jsonFile string) {
 		}
 		sort.Strings(fs)
 		for _, f := range fs {
+			if t.guarded[f] == "-" {
+				guards = append(guards, guard{t.name + "." + f, "-"}) // derived field of a struct without a mutex
+				continue
+			}
 			guards = append(guards, guard{t.name + "." + f, t.name + "." + t.guarded[f]})
 		}
 	}
@@ -1699,7 +1821,29 @@ func runGroup(repoDir string, gr *group, leanFile, jsonFile string) {
 		}
 		sb.WriteString(leanStr(m))
 	}
-	sb.WriteString("]\n\nend " + gr.namespace + "\n")
+	sb.WriteString("]\n")
+	if gr.derive {
+		sb.WriteString("\n/-- DERIVED shared variables: (field, guard (\"-\" = the struct has no mutex), the functions assigning it\noutside constructors / Init) -/\ndef derived : List (String × String × List String) :=\n  [")
+		for i, d := range g.derivedInfo {
+			if i > 0 {
+				sb.WriteString(",\n   ")
+			}
+			var ws []string
+			for _, w := range d.Writes {
+				ws = append(ws, leanStr(w))
+			}
+			fmt.Fprintf(&sb, "(%s, %s, [%s])", leanStr(d.Var), leanStr(d.Guard), strings.Join(ws, ", "))
+		}
+		sb.WriteString("]\n\n/-- the configured struct types whose fields were examined -/\ndef sharedTypes : List String :=\n  [")
+		for i := range types {
+			if i > 0 {
+				sb.WriteString(", ")
+			}
+			sb.WriteString(leanStr(types[i].name))
+		}
+		sb.WriteString("]\n")
+	}
+	sb.WriteString("\nend " + gr.namespace + "\n")
 	if *leanOut != "" {
 		if err := os.WriteFile(*leanOut, []byte(sb.String()), 0o644); err != nil {
 			fmt.Fprintln(os.Stderr, err)
@@ -1718,4 +1862,179 @@ func runGroup(repoDir string, gr *group, leanFile, jsonFile string) {
 		unknown += s.Unkown
 	}
 	fmt.Printf("skelgen[%s]: %d skeletons, %d unknown constructs\n", gr.name, len(skels), unknown)
+}
+
+// ---------------------------------------------------------------------------------------------
+// derived shared variables (group option `derive`)
+
+// deriveFields computes, for every configured struct type of the group, the fields that are assigned anywhere
+// in the type's package outside constructors (plain functions named New* / new*) and methods named Init:
+// plain / op / index assignments, ++ / --, `delete(x.f, k)` and `&x.f`, reached through any chain of
+// selections / indexings. Each becomes a guarded variable "Type.field" whose guard is the struct's own mutex
+// field (sync.Mutex / sync.RWMutex, value or pointer) or "-" (no mutex: no access can hold it) — merged into
+// the configured `guarded` table, which is what the extraction consults for reads and writes.
+func (g *gen) deriveFields(types []typeCfg) {
+	byName := map[string]*typeCfg{}
+	for i := range types {
+		byName[types[i].name] = &types[i]
+	}
+	writes := map[string]map[string]bool{}
+	seenPkg := map[string]bool{}
+	for i := range types {
+		dir := types[i].pkg
+		if seenPkg[dir] {
+			continue
+		}
+		seenPkg[dir] = true
+		p := g.loadPkg(dir)
+		var fds []*ast.FuncDecl
+		for fd := range p.fileOf {
+			fds = append(fds, fd)
+		}
+		sort.Slice(fds, func(a, b int) bool { return fds[a].Pos() < fds[b].Pos() })
+		for _, fd := range fds {
+			if fd.Body == nil {
+				continue
+			}
+			fname := fd.Name.Name
+			if fd.Recv == nil {
+				if strings.HasPrefix(fname, "New") || strings.HasPrefix(fname, "new") {
+					continue
+				}
+			} else {
+				if fname == "Init" {
+					continue
+				}
+				if len(fd.Recv.List) == 1 {
+					fname = recvTypeName(fd.Recv.List[0].Type) + "." + fname
+				}
+			}
+			c := &fctx{g: g, dir: dir, file: p.fileOf[fd], fd: fd, fname: fname}
+			mark := func(e ast.Expr) {
+				for {
+					switch x := e.(type) {
+					case *ast.IndexExpr:
+						e = x.X
+						continue
+					case *ast.SliceExpr:
+						e = x.X
+						continue
+					case *ast.StarExpr:
+						e = x.X
+						continue
+					case *ast.ParenExpr:
+						e = x.X
+						continue
+					case *ast.SelectorExpr:
+						if id, ok := x.X.(*ast.Ident); ok && id.Obj == nil {
+							return // package-qualified identifier
+						}
+						t := c.typeOf(x.X)
+						if cfg, ok := byName[t.name]; ok && t.kind == "named" && cfg.pkg == t.pkg && g.hasField(t, x.Sel.Name) {
+							key := t.name + "." + x.Sel.Name
+							if writes[key] == nil {
+								writes[key] = map[string]bool{}
+							}
+							writes[key][fname] = true
+							return
+						}
+						e = x.X
+						continue
+					}
+					return
+				}
+			}
+			ast.Inspect(fd.Body, func(n ast.Node) bool {
+				switch x := n.(type) {
+				case *ast.AssignStmt:
+					if x.Tok != token.DEFINE {
+						for _, l := range x.Lhs {
+							mark(l)
+						}
+					}
+				case *ast.IncDecStmt:
+					mark(x.X)
+				case *ast.UnaryExpr:
+					if x.Op == token.AND {
+						if _, isLit := x.X.(*ast.CompositeLit); !isLit {
+							mark(x.X)
+						}
+					}
+				case *ast.RangeStmt:
+					if x.Tok == token.ASSIGN {
+						if x.Key != nil {
+							mark(x.Key)
+						}
+						if x.Value != nil {
+							mark(x.Value)
+						}
+					}
+				case *ast.CallExpr:
+					if id, ok := x.Fun.(*ast.Ident); ok && id.Obj == nil && id.Name == "delete" && len(x.Args) > 0 {
+						mark(x.Args[0])
+					}
+				}
+				return true
+			})
+		}
+	}
+	var keys []string
+	for k := range writes {
+		keys = append(keys, k)
+	}
+	sort.Strings(keys)
+	for _, k := range keys {
+		parts := strings.SplitN(k, ".", 2)
+		t := byName[parts[0]]
+		if t.guarded == nil {
+			t.guarded = map[string]string{}
+		}
+		if _, configured := t.guarded[parts[1]]; !configured {
+			t.guarded[parts[1]] = g.structMutex(t)
+		}
+		var ws []string
+		for w := range writes[k] {
+			ws = append(ws, w)
+		}
+		sort.Strings(ws)
+		guard := t.guarded[parts[1]]
+		if guard != "-" {
+			guard = t.name + "." + guard
+		}
+		g.derivedInfo = append(g.derivedInfo, derivedField{Var: k, Guard: guard, Writes: ws})
+	}
+}
+
+func (g *gen) hasField(t typeRef, field string) bool {
+	p := g.loadPkg(t.pkg)
+	st, ok := p.structs[t.name]
+	if !ok {
+		return false
+	}
+	for _, fl := range st.Fields.List {
+		for _, n := range fl.Names {
+			if n.Name == field {
+				return true
+			}
+		}
+	}
+	return false
+}
+
+// structMutex returns the name of the first field of the struct that is a sync.Mutex / sync.RWMutex, or "-".
+func (g *gen) structMutex(t *typeCfg) string {
+	p := g.loadPkg(t.pkg)
+	st, ok := p.structs[t.name]
+	if !ok {
+		return "-"
+	}
+	for _, fl := range st.Fields.List {
+		ft := g.typeFromExpr(t.pkg, p.fileOfS[t.name], fl.Type)
+		if ft.kind == "mutex" || ft.kind == "rwmutex" {
+			for _, n := range fl.Names {
+				return n.Name
+			}
+		}
+	}
+	return "-"
 }
